@@ -32,8 +32,10 @@ PROBES = {
     "contains": [('"hello".contains("ell")', True), ('"ell".contains("hello")', False), ('"abc".contains("")', True)],
     "starts_with": [('"hello".starts_with("he")', True), ('"he".starts_with("hello")', False), ('"hello".starts_with("lo")', False)],
     "ends_with": [('"hello".ends_with("lo")', True), ('"lo".ends_with("hello")', False), ('"hello".ends_with("he")', False)],
-    "to_lowercase": [('"AbC".to_lowercase() == "abc"', True), ('"Éa".to_lowercase() == "éa"', True)],
-    "to_uppercase": [('"AbC".to_uppercase() == "ABC"', True), ('"éa".to_uppercase() == "ÉA"', True)],
+    # incl. the context-sensitive and expanding cases of Unicode case mapping (final sigma, sharp s, dotted capital I)
+    "to_lowercase": [('"AbC".to_lowercase() == "abc"', True), ('"Éa".to_lowercase() == "éa"', True), ('"ΑΣ".to_lowercase() == "ας"', True),
+                     ('"ΣΑ".to_lowercase() == "σα"', True), ('"İ".to_lowercase() == "i̇"', True)],
+    "to_uppercase": [('"AbC".to_uppercase() == "ABC"', True), ('"éa".to_uppercase() == "ÉA"', True), ('"ß".to_uppercase() == "SS"', True), ('"ǆ".to_uppercase() == "Ǆ"', True)],
     "repeat": [('"ab".repeat(3) == "ababab"', True), ('"ab".repeat(0) == ""', True), ('"ab".repeat(1) == "ab"', True)],
     "replace": [('"a-b-c".replace("-", "+") == "a+b+c"', True), ('"aaa".replace("a", "bb") == "bbbbbb"', True), ('"abc".replace("x", "y") == "abc"', True)],
     "trim": [('" \\t ab  ".trim() == "ab"', True)],
